@@ -1,3 +1,8 @@
 -- Root of the `ShmVerif` library: models, specs, proofs, property theorems, ties.
+import ShmVerif.Gen.Consts
+import ShmVerif.Gen.Skel
 import ShmVerif.Model.QueueC
+import ShmVerif.Proof.QueueC
+import ShmVerif.Props.C04
+import ShmVerif.Tie.C04
 import ShmVerif.Drv.C04
